@@ -86,21 +86,14 @@ func explainInsertQuery(sb *strings.Builder, n *ast.InsertQuery, indent string, 
 	}
 
 	if n.Select != nil {
-		// For INSERT with SELECT, temporarily clear Format from the SELECT
-		// (FORMAT in INSERT belongs to INSERT, not SELECT, and shouldn't be output in EXPLAIN)
-		if swu, ok := n.Select.(*ast.SelectWithUnionQuery); ok {
-			for _, sel := range swu.Selects {
-				if sq, ok := sel.(*ast.SelectQuery); ok && sq.Format != nil {
-					savedFormat := sq.Format
-					sq.Format = nil
-					defer func() { sq.Format = savedFormat }()
-				}
-			}
-		}
+		// FORMAT in INSERT belongs to INSERT, not SELECT, and shouldn't be output in EXPLAIN
+		tail := unionTail{noFormat: true}
 		// If this INSERT has an inherited WITH clause (from WITH ... INSERT syntax),
 		// use the special explain function that outputs WITH at the end of each SelectQuery
 		if len(n.With) > 0 {
-			ExplainSelectWithInheritedWith(sb, n.Select, n.With, depth+1)
+			explainSelectWithInheritedWithTail(sb, n.Select, n.With, depth+1, tail)
+		} else if swu, ok := n.Select.(*ast.SelectWithUnionQuery); ok {
+			explainSelectWithUnionQueryTail(sb, swu, strings.Repeat(" ", depth+1), depth+1, tail)
 		} else {
 			Node(sb, n.Select, depth+1)
 		}
@@ -950,29 +943,24 @@ func explainExplainQuery(sb *strings.Builder, n *ast.ExplainQuery, indent string
 	// Also check for SETTINGS after FORMAT (these are at the EXPLAIN level, not part of the SELECT)
 	var format *ast.Identifier
 	var hasSettingsAfterFormat bool
-	var savedSettings []*ast.SettingExpr
+	var tail unionTail
 	if swu, ok := n.Statement.(*ast.SelectWithUnionQuery); ok {
 		// Check for union-level settings after format
 		if swu.SettingsAfterFormat && len(swu.Settings) > 0 {
 			hasSettingsAfterFormat = true
-			savedSettings = swu.Settings
-			swu.Settings = nil
-			defer func() { swu.Settings = savedSettings }()
+			tail.noSettings = true
 		}
 		for _, sel := range swu.Selects {
 			if sq, ok := sel.(*ast.SelectQuery); ok {
 				if sq.Format != nil {
 					format = sq.Format
-					// Temporarily nil out the format so it's not output by SelectWithUnionQuery
-					sq.Format = nil
-					defer func() { sq.Format = format }()
+					// The format is output here, not by SelectWithUnionQuery
+					tail.noFormatOf = sq
 				}
 				// Check for settings after format in the SelectQuery
 				if sq.SettingsAfterFormat && len(sq.Settings) > 0 && !hasSettingsAfterFormat {
 					hasSettingsAfterFormat = true
-					savedSettings = sq.Settings
-					sq.Settings = nil
-					defer func() { sq.Settings = savedSettings }()
+					tail.noSettingsOf = sq
 				}
 				break
 			}
@@ -1003,7 +991,11 @@ func explainExplainQuery(sb *strings.Builder, n *ast.ExplainQuery, indent string
 		fmt.Fprintf(sb, "%s Set\n", indent)
 	}
 	// Output the statement
-	Node(sb, n.Statement, depth+1)
+	if swu, ok := n.Statement.(*ast.SelectWithUnionQuery); ok {
+		explainSelectWithUnionQueryTail(sb, swu, strings.Repeat(" ", depth+1), depth+1, tail)
+	} else {
+		Node(sb, n.Statement, depth+1)
+	}
 	// Format comes after statement
 	if format != nil {
 		fmt.Fprintf(sb, "%s Identifier %s\n", indent, format.Parts[len(format.Parts)-1])
